@@ -182,6 +182,19 @@ def run_e2e(ctx, nhost, tag):
             if want != got:
                 bad = (fl, [w for w in want if w not in got][:5], [g for g in got if g not in want][:5])
                 break
+        if bad and kind == "insert":
+            # K35: the insertion point lies in a brace/do body whose opening line the host run itself reports (e.g. `too many arguments`):
+            # ti abandons that statement and does not evaluate the braces as a body
+            hl = host.rstrip("\n").split("\n")
+            ind = len(new.split("\n")[j]) - len(new.split("\n")[j].lstrip(" "))
+            opener = next((r for r in range(j, 0, -1) if hl[r - 1].strip() and len(hl[r - 1]) - len(hl[r - 1].lstrip(" ")) < ind), None) if ind > 0 else None
+            reported = set(r for p_, r, x in meta.parse(b[0][1]) if r is not None and not is_type_text(x))
+            kf = next((f for f in ctx.findings if f.get("status") == "open" and f.get("predicate") == "insertion-inside-body-of-reported-statement"), None)
+            if opener in reported and kf:
+                if kf["id"] not in ctx.known_hits:
+                    common.known_finding(ctx, kf, kf["what"])
+                shapes["insert-inside-reported-statement (K35)"] = shapes.get("insert-inside-reported-statement (K35)", 0) + 1
+                continue
         if bad:
             failures.append({"kind": "fragment-changes-host-output", "how": kind, "host": hname, "inserted_before_line": j + 1, "fragment_lines": k, "flags": bad[0],
                              "host_lines_lost": bad[1], "host_lines_new": bad[2], "program": new, "host_program": host,
